@@ -38,8 +38,8 @@
 (*                                                                         *)
 (* PART 2 - the observable books (size(), stats()) as predicates.          *)
 (* PART 3 - a state machine over the core: the IDEAL bounded cache with    *)
-(* unconstrained eviction, and the AS-IS variant shaped like the current   *)
-(* code; used by MC_Cache only.                                            *)
+(* unconstrained eviction, and the AS-IS variant shaped like the code with *)
+(* the defects of chosen findings switched on; used by MC_Cache only.      *)
 (***************************************************************************)
 EXTENDS Naturals, Sequences, FiniteSets
 
@@ -161,8 +161,8 @@ BooksOk(vals, o) ==
 \* XxxStep(m, cfg, e, U) is the SET of possible outcomes [m |-> m', res |-> r]
 \* of operation e (U = key universe of a probe).  IdealStep: any eviction that
 \* makes the limits hold, lazy or eager expiry.  AsIsStep: shaped like the
-\* current code (90 %-of-entries eviction sizing, index rebuilt lazily after a
-\* restart) - TLC refutes the properties on it (F10a-F10d at the model level).
+\* code (evict-before-insert, disk index rebuilt lazily after a restart), with
+\* the defects of the listed findings (F10a-F10d) switched on one by one.
 M0 == [s |-> C0, store |-> EmptyFn, idx |-> {}, noexp |-> {}]
 WithRes(e, r) == [x \in DOMAIN e \cup {"res"} |-> IF x = "res" THEN r ELSE e[x]]
 Okay == [ok |-> TRUE]
@@ -210,10 +210,21 @@ IdealStep(m, cfg, e, U) ==
     [] e.op = "probe"    -> IdealProbe(m, cfg, U)
 IdealObs(m) == [cnt |-> Cardinality(Held(m)), n |-> Cardinality(Held(m)), mem |-> SizeOf(m, Held(m))]
 
-\* ---- the cache as the code is written today ---------------------------------
-\* memory: put evicts BEFORE inserting, only if count >= maxe or bytes >= maxb,
-\* and then exactly (count - floor(0.9 maxe)) entries whatever their size
-\* (policy "ttl": the expired ones); the incoming size is never looked at.
+\* ---- the cache shaped like the code ------------------------------------------
+\* The memory cache evicts BEFORE inserting; the disk cache keeps one file per
+\* key plus an index that starts empty in every instance and is filled lazily
+\* (a get of an un-indexed key finds the file and indexes it).  F is the set of
+\* known findings whose defect the machine reproduces:
+\*   F10a/F10c  memory put: eviction only if count >= maxe or bytes >= maxb, and
+\*              then exactly (count - floor(0.9 maxe)) entries whatever their
+\*              size (policy "ttl": the expired ones); the incoming size is
+\*              never looked at.  Without them: any eviction that makes room.
+\*   F10b       the lazily indexed entry gets NO expiry time.  Without it: the
+\*              expiry time is known to every instance.
+\*   F10d       remove only looks at the index and leaves an un-indexed file.
+\*              Without it: the file goes too.
+\* With F = {} the machine satisfies the properties (checked by MC_Cache); with
+\* a finding in F, TLC refutes them and prints the witness program.
 KSubsets(S, n) == {X \in SUBSET S : Cardinality(X) = n}
 AsIsMemPut(m, cfg, e) ==
   LET c == Cardinality(Held(m))
@@ -230,25 +241,25 @@ AsIsMemPut(m, cfg, e) ==
   IN {[m |-> LET st == FnWith(Restrict(m.store, Held(m) \ V), e.k, s1.latest[e.k])
              IN [s |-> s1, store |-> st, idx |-> DOMAIN st, noexp |-> {}],
        res |-> Okay] : V \in victims}
-\* disk: one file per key plus an index that starts empty in every instance;
-\* a get of an un-indexed key finds the file and indexes it WITHOUT an expiry
-\* time; remove and contains only look at the index.
 AsIsDiskPut(m, cfg, e) ==
   LET s1 == PutR(m.s, e.k, e.vh, e.n, ClassOf(cfg, e))
   IN {[m |-> [s |-> s1, store |-> FnWith(m.store, e.k, s1.latest[e.k]),
               idx |-> m.idx \cup {e.k}, noexp |-> m.noexp \ {e.k}], res |-> Okay]}
 Forget(m, k) == [m EXCEPT !.store = FnWithout(m.store, k), !.idx = m.idx \ {k}, !.noexp = m.noexp \ {k}]
-\* what the index says about an indexed key: "live", "expired", or either
+\* what the cache thinks of a held key: "live", "expired", or either
 AsIsVerdicts(m, k) ==
   IF k \in m.noexp THEN {"live"}
   ELSE IF ExpiredEnt(m.store[k], m.s.clock) THEN {"expired"}
   ELSE IF MaybeEnt(m.store[k], m.s.clock) THEN {"live", "expired"} ELSE {"live"}
-AsIsGet(m, cfg, e) ==
+AsIsGet(m, cfg, e, F) ==
   LET k == e.k IN
   IF k \in m.idx THEN
     {IF v = "live" THEN [m |-> m, res |-> HitOf(m.store[k])] ELSE [m |-> Forget(m, k), res |-> NoHit] : v \in AsIsVerdicts(m, k)}
   ELSE IF cfg.kind = "disk" /\ k \in Held(m) THEN
-    {[m |-> [m EXCEPT !.idx = m.idx \cup {k}, !.noexp = m.noexp \cup {k}], res |-> HitOf(m.store[k])]}
+    IF "F10b" \in F
+    THEN {[m |-> [m EXCEPT !.idx = m.idx \cup {k}, !.noexp = m.noexp \cup {k}], res |-> HitOf(m.store[k])]}
+    ELSE {IF v = "live" THEN [m |-> [m EXCEPT !.idx = m.idx \cup {k}], res |-> HitOf(m.store[k])]
+          ELSE [m |-> Forget(m, k), res |-> NoHit] : v \in AsIsVerdicts(m, k)}
   ELSE {[m |-> m, res |-> NoHit]}
 AsIsContains(m, cfg, e) ==
   LET k == e.k IN
@@ -256,24 +267,26 @@ AsIsContains(m, cfg, e) ==
     {IF v = "live" THEN [m |-> m, res |-> [b |-> TRUE]]
      ELSE [m |-> IF cfg.kind = "mem" THEN Forget(m, k) ELSE m, res |-> [b |-> FALSE]] : v \in AsIsVerdicts(m, k)}
   ELSE {[m |-> m, res |-> [b |-> FALSE]]}
-AsIsRemove(m, cfg, e) ==
+AsIsRemove(m, cfg, e, F) ==
   LET m1 == [m EXCEPT !.s = RemoveR(m.s, e.k)] IN
   IF e.k \in m.idx THEN {[m |-> Forget(m1, e.k), res |-> [b |-> TRUE]]}
-  ELSE {[m |-> m1, res |-> [b |-> FALSE]]}
-RECURSIVE AsIsProbeFrom(_, _, _, _)
-AsIsProbeFrom(m, cfg, todo, vals) ==     \* gets in some fixed order; outcomes as a set of <<m', vals>>
+  ELSE IF "F10d" \in F \/ ~(e.k \in Held(m)) THEN {[m |-> m1, res |-> [b |-> FALSE]]}
+  ELSE {[m |-> Forget(m1, e.k), res |-> [b |-> TRUE]]}
+RECURSIVE AsIsProbeFrom(_, _, _, _, _)
+AsIsProbeFrom(m, cfg, todo, vals, F) ==     \* gets in some fixed order; outcomes as a set of <<m', vals>>
   IF todo = {} THEN {<<m, vals>>}
   ELSE LET k == CHOOSE x \in todo : TRUE IN
-       UNION {AsIsProbeFrom(x.m, cfg, todo \ {k}, FnWith(vals, k, x.res)) : x \in AsIsGet(m, cfg, [op |-> "get", k |-> k])}
-AsIsStep(m, cfg, e, U) ==
-  CASE IsPut(e)          -> IF cfg.kind = "mem" THEN AsIsMemPut(m, cfg, e) ELSE AsIsDiskPut(m, cfg, e)
-    [] e.op = "get"      -> AsIsGet(m, cfg, e)
+       UNION {AsIsProbeFrom(x.m, cfg, todo \ {k}, FnWith(vals, k, x.res), F) : x \in AsIsGet(m, cfg, [op |-> "get", k |-> k], F)}
+AsIsStep(m, cfg, e, U, F) ==
+  CASE IsPut(e)          -> IF cfg.kind = "disk" THEN AsIsDiskPut(m, cfg, e)
+                            ELSE IF F \cap {"F10a", "F10c"} # {} THEN AsIsMemPut(m, cfg, e) ELSE IdealPut(m, cfg, e)
+    [] e.op = "get"      -> AsIsGet(m, cfg, e, F)
     [] e.op = "contains" -> AsIsContains(m, cfg, e)
-    [] e.op = "remove"   -> AsIsRemove(m, cfg, e)
+    [] e.op = "remove"   -> AsIsRemove(m, cfg, e, F)
     [] e.op = "clear"    -> {[m |-> [s |-> ClearR(m.s), store |-> EmptyFn, idx |-> {}, noexp |-> {}], res |-> Okay]}
     [] e.op = "tick"     -> {[m |-> [m EXCEPT !.s = TickR(m.s)], res |-> Okay]}
     [] e.op = "restart"  -> {[m |-> [m EXCEPT !.idx = {}, !.noexp = {}], res |-> Okay]}
-    [] e.op = "probe"    -> {[m |-> p[1], res |-> [vals |-> p[2]]] : p \in AsIsProbeFrom(m, cfg, U, EmptyFn)}
+    [] e.op = "probe"    -> {[m |-> p[1], res |-> [vals |-> p[2]]] : p \in AsIsProbeFrom(m, cfg, U, EmptyFn, F)}
 \* size(): the index count, or a count of the files when the index is empty
 AsIsObs(m) ==
   [cnt |-> IF m.idx = {} THEN Cardinality(Held(m)) ELSE Cardinality(m.idx),
